@@ -59,25 +59,129 @@ const TRICKY: [&str; 12] = [
 ];
 
 
+/// independent move generator (mailbox, written from the rules): all legal moves of the FEN as UCI strings
+fn sq_name(r: i32, f: i32) -> String { format!("{}{}", (b'a' + f as u8) as char, 8 - r) }
+fn oracle_moves(fen: &str, legal_only: bool) -> Vec<String> {
+    let g = grid(fen);
+    let parts: Vec<&str> = fen.split(' ').collect();
+    let white = parts[1] == "w";
+    let rights = parts[2];
+    let ep = parts[3];
+    let own = |c: char| c != '.' && c.is_ascii_uppercase() == white;
+    let opp = |c: char| c != '.' && c.is_ascii_uppercase() != white;
+    let inb = |r: i32, f: i32| (0..8).contains(&r) && (0..8).contains(&f);
+    let mut cand: Vec<(i32, i32, i32, i32, Option<char>, bool)> = Vec::new();   // from, to, promotion, en passant
+    for r in 0..8i32 { for f in 0..8i32 {
+        let c = g[r as usize][f as usize];
+        if !own(c) { continue; }
+        match c.to_ascii_lowercase() {
+            'p' => {
+                let dir = if white { -1 } else { 1 };
+                let start = if white { 6 } else { 1 };
+                let last = if white { 0 } else { 7 };
+                let mut push = |tr: i32, tf: i32, epf: bool, cand: &mut Vec<(i32, i32, i32, i32, Option<char>, bool)>| {
+                    if tr == last { for p in ['q', 'r', 'b', 'n'] { cand.push((r, f, tr, tf, Some(p), epf)); } } else { cand.push((r, f, tr, tf, None, epf)); }
+                };
+                if inb(r + dir, f) && g[(r + dir) as usize][f as usize] == '.' {
+                    push(r + dir, f, false, &mut cand);
+                    if r == start && g[(r + 2 * dir) as usize][f as usize] == '.' { push(r + 2 * dir, f, false, &mut cand); }
+                }
+                for df in [-1, 1] {
+                    let (tr, tf) = (r + dir, f + df);
+                    if !inb(tr, tf) { continue; }
+                    if opp(g[tr as usize][tf as usize]) { push(tr, tf, false, &mut cand); }
+                    else if ep != "-" && sq_name(tr, tf) == ep && g[tr as usize][tf as usize] == '.' { push(tr, tf, true, &mut cand); }
+                }
+            }
+            'n' => for (dr, df) in [(1, 2), (2, 1), (-1, 2), (-2, 1), (1, -2), (2, -1), (-1, -2), (-2, -1)] {
+                let (tr, tf) = (r + dr, f + df);
+                if inb(tr, tf) && !own(g[tr as usize][tf as usize]) { cand.push((r, f, tr, tf, None, false)); }
+            },
+            'k' => for dr in -1..=1 { for df in -1..=1 {
+                let (tr, tf) = (r + dr, f + df);
+                if (dr, df) != (0, 0) && inb(tr, tf) && !own(g[tr as usize][tf as usize]) { cand.push((r, f, tr, tf, None, false)); }
+            } },
+            k => {
+                let dirs: &[(i32, i32)] = match k { 'r' => &[(1, 0), (-1, 0), (0, 1), (0, -1)], 'b' => &[(1, 1), (1, -1), (-1, 1), (-1, -1)],
+                    _ => &[(1, 0), (-1, 0), (0, 1), (0, -1), (1, 1), (1, -1), (-1, 1), (-1, -1)] };
+                for (dr, df) in dirs {
+                    let (mut tr, mut tf) = (r + dr, f + df);
+                    while inb(tr, tf) {
+                        let t = g[tr as usize][tf as usize];
+                        if own(t) { break; }
+                        cand.push((r, f, tr, tf, None, false));
+                        if t != '.' { break; }
+                        tr += dr; tf += df;
+                    }
+                }
+            }
+        }
+    } }
+    let mut out = Vec::new();
+    for (r, f, tr, tf, promo, epf) in cand {
+        let mut h = g;
+        let piece = h[r as usize][f as usize];
+        h[r as usize][f as usize] = '.';
+        if epf { h[r as usize][tf as usize] = '.'; }
+        h[tr as usize][tf as usize] = match promo { Some(p) => if white { p.to_ascii_uppercase() } else { p }, None => piece };
+        let mut safe = true;
+        for kr in 0..8 { for kf in 0..8 { if h[kr][kf] == (if white { 'K' } else { 'k' }) { safe = !attacked(&h, kr as i32, kf as i32, !white); } } }
+        if safe || !legal_only { out.push(format!("{}{}{}", sq_name(r, f), sq_name(tr, tf), promo.map(|p| p.to_string()).unwrap_or_default())); }
+    }
+    // castling: right present, king and rook at home, squares between empty, king's start, crossing and target squares not attacked
+    let row = if white { 7 } else { 0 };
+    let (kc, rc) = if white { ('K', 'R') } else { ('k', 'r') };
+    if g[row][4] == kc {
+        let r = row as i32;
+        if rights.contains(if white { 'K' } else { 'k' }) && g[row][7] == rc && g[row][5] == '.' && g[row][6] == '.'
+            && !attacked(&g, r, 4, !white) && !attacked(&g, r, 5, !white) && !attacked(&g, r, 6, !white) { out.push(format!("{}{}", sq_name(r, 4), sq_name(r, 6))); }
+        if rights.contains(if white { 'Q' } else { 'q' }) && g[row][0] == rc && g[row][1] == '.' && g[row][2] == '.' && g[row][3] == '.'
+            && !attacked(&g, r, 4, !white) && !attacked(&g, r, 3, !white) && !attacked(&g, r, 2, !white) { out.push(format!("{}{}", sq_name(r, 4), sq_name(r, 2))); }
+    }
+    out.sort();
+    out
+}
+
 fn check_position(board: &mut Bitboard, bad: &mut u32) {
     let fen = snap(board);
-    let white = fen.split(' ').nth(1) == Some("w");
-    let mut expect: Vec<String> = Vec::new();
-    for mv in board.generate_pseudo_legal_moves() {
-        board.make(mv);
-        let legal = !king_attacked(&snap(board), white);
-        board.unmake(mv);
-        if legal { expect.push(mv.to_uci_string()); }
-    }
+    let expect = oracle_moves(&fen, true);
     let mut got: Vec<String> = board.generate_legal_moves().iter().map(|m| m.to_uci_string()).collect();
-    expect.sort();
     got.sort();
     if got != expect {
         if *bad < 5 {
             let extra: Vec<&String> = got.iter().filter(|m| !expect.contains(m)).collect();
             let missing: Vec<&String> = expect.iter().filter(|m| !got.contains(m)).collect();
-            println!("FAILING-INPUT: fen={:?} generate_legal_moves: illegal moves returned {:?}, legal moves missing {:?}", fen, extra, missing);
+            println!("FAILING-INPUT: fen={:?} generate_legal_moves: moves returned that the rules do not allow {:?}, legal moves missing {:?}", fen, extra, missing);
         }
+        *bad += 1;
+    }
+    // pseudo-legal generator: exactly the moves of the rules before the king-safety filter (castling as above), no duplicates
+    let pexpect = oracle_moves(&fen, false);
+    let mut pgot: Vec<String> = board.generate_pseudo_legal_moves().iter().map(|m| m.to_uci_string()).collect();
+    pgot.sort();
+    if pgot != pexpect {
+        if *bad < 5 {
+            let extra: Vec<&String> = pgot.iter().filter(|m| !pexpect.contains(m)).collect();
+            let missing: Vec<&String> = pexpect.iter().filter(|m| !pgot.contains(m)).collect();
+            println!("FAILING-INPUT: fen={:?} generate_pseudo_legal_moves: extra (or duplicated) {:?}, missing {:?}", fen, extra, missing);
+        }
+        *bad += 1;
+    }
+    // capture/promotion-only generator: exactly that subset
+    let g = grid(&fen);
+    let ep = fen.split(' ').nth(3).unwrap().to_string();
+    let noisy = |m: &String| -> bool {
+        let b = m.as_bytes();
+        let (tf, tr) = ((b[2] - b'a') as usize, (b'8' - b[3]) as usize);
+        let (ff, fr) = ((b[0] - b'a') as usize, (b'8' - b[1]) as usize);
+        g[tr][tf] != '.' || m.len() == 5 || (g[fr][ff].to_ascii_lowercase() == 'p' && m[2..4] == ep)
+    };
+    let mut nexpect: Vec<String> = pexpect.iter().filter(|m| noisy(m)).cloned().collect();
+    let mut ngot: Vec<String> = board.generate_pseudo_legal_non_quiescent_moves().iter().map(|m| m.to_uci_string()).collect();
+    nexpect.sort();
+    ngot.sort();
+    if ngot != nexpect {
+        if *bad < 5 { println!("FAILING-INPUT: fen={:?} generate_pseudo_legal_non_quiescent_moves returned {:?}, the capture/promotion subset is {:?}", fen, ngot, nexpect); }
         *bad += 1;
     }
 }
@@ -86,6 +190,12 @@ fn check_position(board: &mut Bitboard, bad: &mut u32) {
 fn witness_c01_legal_moves_exact() {
     let mut bad = 0;
     for fen in TRICKY {
+        let mut board = Bitboard::from_fen_string_unchecked(fen);
+        check_position(&mut board, &mut bad);
+    }
+    for fen in ["r3k2r/8/8/8/8/8/8/R3K2R w KQkq - 0 1", "r3k2r/8/8/8/8/8/8/R3K2R b KQkq - 0 1", "r3k2r/8/8/8/8/8/8/R3K2R w Kq - 0 1",
+                "r3k2r/p6p/8/8/8/8/P6P/RN2K1NR w KQkq - 0 1", "rn2k1nr/8/8/8/8/8/8/R3K2R b KQkq - 0 1", "r3k2r/8/8/4r3/8/8/8/R3K2R w KQkq - 0 1",
+                "r3k2r/8/8/8/8/8/3p4/R3K2R w KQkq - 0 1", "4k3/P6P/8/8/8/8/p6p/4K3 w - - 0 1", "1n2k1n1/P6P/8/8/8/8/p6p/1N2K1N1 b - - 0 1"] {
         let mut board = Bitboard::from_fen_string_unchecked(fen);
         check_position(&mut board, &mut bad);
     }
